@@ -167,7 +167,9 @@ def psutil_call(w, fn, snap, nowrap, per):
     if fn == "net":
         r = ps.net_io_counters(pernic=per, nowrap=nowrap)
     else:
-        r = ps.disk_io_counters(perdisk=per, nowrap=nowrap)
+        # (any truthy value asks for the per-disk form: spelled 1, 2 or "all" for a share of the calls)
+        per_arg = per if not per or (len(w.opened) % 3) else (1, 2, "all")[len(w.opened) % 5 % 3]
+        r = ps.disk_io_counters(perdisk=per_arg, nowrap=nowrap)
     return r
 
 
